@@ -84,6 +84,15 @@ def _lens_cases(ctx, nl, rays_per):
                 s['coating'] = [rng.uniform(0.3, 1.0), rng.uniform(0.0, 1.0)]
             if isinstance(s['material'], list) and s['material'][0] == 'ideal' and rng.random() < 0.5:
                 s['material'][2] = rng.uniform(0, 5e-6)
+        if li % 3 == 2:
+            # apertures on clearly decentred / tilted surfaces: the aperture belongs to the surface's own frame
+            for s in spec['surfaces']:
+                if s.get('aperture'):
+                    s['dx'] = rng.uniform(-0.45, 0.45) * s['aperture'][0]
+                    s['dy'] = rng.uniform(-0.45, 0.45) * s['aperture'][0]
+                    s['rx'] = rng.uniform(-0.05, 0.05)
+                    s['ry'] = rng.uniform(-0.05, 0.05)
+                    hist['decentred_apertures'] = hist.get('decentred_apertures', 0) + 1
         try:
             o = lensgen.build(spec)
         except Exception as e:   # noqa
